@@ -258,3 +258,106 @@ func rulePoolSetsImmutable(c *Ctx, rule string) {
 		}
 	}
 }
+
+// rulePodLockKey: the per-pod lock is taken with (pod name, namespace) in that order at every call site, so that
+// every path of one pod contends on the same key.
+func rulePodLockKey(c *Ctx, rule string) {
+	n := 0
+	for _, fn := range c.SrcFns {
+		for _, call := range calls(fn, "(*FloatingIPPlugin).lockPod") {
+			n++
+			a := callArgs(call)
+			okN := pathEndsWith(a[0], "Name") || pathEndsWith(a[0], "PodName")
+			okS := pathEndsWith(a[1], "Namespace")
+			c.ob(rule, fn, "lockPod(name, namespace)", call, okN && okS, "first argument is a pod name (.Name/.PodName), second a namespace (.Namespace): the key is namespace_name for every caller")
+		}
+	}
+	if n < 5 {
+		c.undecided(rule, nil, "lockPod call sites", nil, fmt.Sprintf("expected at least 5 lockPod call sites, found %d", n))
+	}
+}
+
+// ruleTablesOnlyThroughHelpers: an ip is in exactly one of the two tables because single entries are moved only by
+// the paired helpers (insert into allocated + delete from unallocated, and vice versa); wholesale replacement happens
+// only in ConfigurePool.
+func ruleTablesOnlyThroughHelpers(c *Ctx, rule string) {
+	allowed := map[string]map[string]bool{
+		"allocatedFIPs":   {"syncCacheAfterCreate": true, "syncCacheAfterDel": true},
+		"unallocatedFIPs": {"syncCacheAfterCreate": true, "syncCacheAfterDel": true},
+	}
+	n := 0
+	for _, fn := range c.SrcFns {
+		if fn.Pkg.Pkg.Path() != modPath+fipPkg {
+			continue
+		}
+		allInstrs(fn, func(in ssa.Instruction) {
+			var m ssa.Value
+			switch x := in.(type) {
+			case *ssa.MapUpdate:
+				m = x.Map
+			case ssa.CallInstruction:
+				if b, ok := x.Common().Value.(*ssa.Builtin); ok && b.Name() == "delete" {
+					m = x.Common().Args[0]
+				}
+			}
+			if m == nil {
+				return
+			}
+			_, f, ok := fieldLoad(m)
+			if !ok || allowed[f] == nil {
+				return
+			}
+			n++
+			root := fn
+			for root.Parent() != nil {
+				root = root.Parent()
+			}
+			c.ob(rule, fn, "entry of "+f+" changed only by the paired move helpers", in, allowed[f][root.Name()], "single entries move between the tables only in syncCacheAfterCreate / syncCacheAfterDel (each inserts into one table and deletes from the other)")
+		})
+	}
+	// each helper does both halves
+	for _, h := range []string{"(*crdIpam).syncCacheAfterCreate", "(*crdIpam).syncCacheAfterDel"} {
+		fn := c.MustFn(rule, fipPkg, h)
+		if fn == nil {
+			continue
+		}
+		ins, del := "", ""
+		allInstrs(fn, func(in ssa.Instruction) {
+			switch x := in.(type) {
+			case *ssa.MapUpdate:
+				_, ins, _ = fieldLoad(x.Map)
+			case ssa.CallInstruction:
+				if b, ok := x.Common().Value.(*ssa.Builtin); ok && b.Name() == "delete" {
+					_, del, _ = fieldLoad(x.Common().Args[0])
+				}
+			}
+		})
+		c.ob(rule, fn, "move = insert into one table and delete from the other", nil, ins != "" && del != "" && ins != del, "inserts into "+ins+", deletes from "+del)
+	}
+	if n < 4 {
+		c.undecided(rule, nil, "table entry mutations", nil, fmt.Sprintf("expected at least 4 single-entry mutations of the tables, found %d", n))
+	}
+}
+
+// ruleWhoMayUnbind: the functions that free / reserve an ip after a pod is gone are entered only from the paths that
+// first unassign it from the cloud provider (unbind, the release API, the resync closure).
+func ruleWhoMayUnbind(c *Ctx, rule string) {
+	allowedCallers := map[string]bool{"unbind": true, "resyncAllocatedIPs": true, "Release": true}
+	n := 0
+	for _, fn := range c.SrcFns {
+		if fn.Pkg.Pkg.Path() != modPath+spPkg {
+			continue
+		}
+		for _, call := range calls(fn, "(*FloatingIPPlugin).unbindDpPod", "(*FloatingIPPlugin).unbindNoneDpPod", "IPAM).Release") {
+			n++
+			root := fn
+			for root.Parent() != nil {
+				root = root.Parent()
+			}
+			c.ob(rule, fn, shortCallee(call)+" called only from the unassign-first paths", call, allowedCallers[root.Name()], "callers are unbind / Release / the resync closure (each unassigns from the provider before deciding to free or reserve)")
+		}
+	}
+	if n < 5 {
+		c.undecided(rule, nil, "unbind*Pod / IPAM.Release call sites", nil, fmt.Sprintf("expected at least 5, found %d", n))
+	}
+}
